@@ -182,9 +182,9 @@ theorem SInv.pc {s : RSys} (h : SInv s) : s.r.playerCount = s.env.alive.length :
   rw [h.rinv.cnt]
   omega
 
-theorem SInv.init (max min : Nat) (h2 : 2 ≤ min) (hm : min ≤ max) : SInv (RSys.init max min) := by
+theorem SInv.init (max min : Nat) (h1 : 1 ≤ max) : SInv (RSys.init max min) := by
   unfold RSys.init
-  refine ⟨⟨⟨h2, hm, rfl, List.nodup_nil, (fun _ h => by cases h), (fun _ h => by cases h)⟩,
+  refine ⟨⟨⟨h1, rfl, List.nodup_nil, (fun _ h => by cases h), (fun _ h => by cases h)⟩,
       (fun _ _ h => by cases h), rfl, (fun _ => rfl)⟩,
     rfl, List.Perm.refl _, List.nodup_nil, (fun _ h => by cases h), Nat.le_refl _, (fun h => absurd rfl h)⟩
 
@@ -594,7 +594,7 @@ theorem SInv.step_full {s : RSys} (h : SInv s) (op : EOp) (hok : s.ok op) :
 
 theorem SInv.of_reachable {s : RSys} (h : Reachable s) : SInv s := by
   induction h with
-  | init max min h2 hm => exact SInv.init max min h2 hm
+  | init max min h1 => exact SInv.init max min h1
   | step op _ hok ih => exact (ih.step_full op hok).1
 
 end RSys
